@@ -58,16 +58,20 @@ Qed.
 (* ---- the unrestricted statement and the zone side conditions ------------------------------------------------------------------------------------- *)
 Definition lex_emit_corez_full : Prop := forall cls sp d, corez_doc d = true -> lex_emit_corez_concl cls sp d.
 
-Lemma concl_all2 cls sp d : lex_emit_corez_concl cls sp d ->
-  match tokenize cls false (lines_of (emit sp d)) with
-  | LexOk toks reps => all2 tmatchbz toks (docz_sh needs_multiline ex_idnum d ++ [(NEWLINE, None); (EOF, None)]) = true /\ reps = []
-  | _ => False
-  end.
+Lemma concl_check cls sp d : corez_doc d = true -> lex_emit_corez_concl cls sp d ->
+  corez_shape_check cls d (lines_of (emit sp d)) = 1.
 Proof.
-  intros (ts & tnl & teof & H & HF & Hnl & Heof). rewrite H. split; [|reflexivity]. apply all2_tmatchbz.
-  apply Forall2_app; [exact HF|]. constructor; [split; [exact Hnl|exact I]|]. constructor; [split; [exact Heof|exact I]|constructor].
+  intros Hc (ts & tnl & teof & H & HF & Hnl & Heof). unfold corez_shape_check. rewrite Hc, H.
+  assert (HF' : Forall2 tmatch (ts ++ [tnl; teof]) (docz_sh needs_multiline ex_idnum d ++ [(NEWLINE, None); (EOF, None)])).
+  { apply Forall2_app; [exact HF|]. constructor; [split; [exact Hnl|exact I]|]. constructor; [split; [exact Heof|exact I]|constructor]. }
+  rewrite (all2_tmatchbz _ _ HF'). reflexivity.
 Qed.
-Ltac refute_z := let H := fresh "H" in intros H; apply concl_all2 in H; vm_compute in H; first [exact H | destruct H as [H _]; discriminate H].
+(* the executable check is evaluated in the GOAL (vm_compute leaves a cast there), never in a hypothesis *)
+Ltac refute_z :=
+  let H := fresh "H" in let E := fresh "E" in
+  intros H; match type of H with lex_emit_corez_concl ?c ?s ?d => apply (concl_check c s d (eq_refl true)) in H end;
+  match type of H with ?L = _ => let v := eval vm_compute in L in assert (E : L = v) by (vm_compute; reflexivity) end;
+  rewrite E in H; discriminate H.
 
 (* (1) a content line that closes the fence (same run, only blanks around it): lexer error *)
 Lemma lex_emit_corez_refuted_closing_line :
